@@ -7,18 +7,23 @@ import os
 ROOT = os.path.dirname(os.path.dirname(os.path.abspath(__file__)))
 
 NOTE_COMMON = ("Trusted base: the harness (scripted children, wake-only executor, trace oracles) and, for generation, "
-               "proptest's RNG seeded from VERIF_SEED. Bounds: tuples <= 12, Vec <= 200 (boundary lengths up to 200 now and then in the quick tier, "
-               "often in the thorough tier), scripts <= 10 steps, schedules <= 40 actions, one level of nesting, no poll of a combinator after "
-               "its own final result. Generated search never establishes absence. Wake-ups from "
-               "other threads are generated as wakes landing between polls or inside a child's poll (plus joined helper-thread "
-               "fires); truly simultaneous execution is not explored.")
+               "proptest's RNG seeded from VERIF_SEED. Bounds: tuples <= 12, Vec <= 1100 (boundary lengths 22..24, 63..66, 100, 128/129, 200, 255..257, 300, 1025, 1100 now and then in the quick tier, "
+               "often in the thorough tier), arrays up to 300 (one 65537-input array merge as a regression case), scripts <= 10 steps (now and then 240..570 Pending answers first), "
+               "schedules <= 40 actions, two levels of nesting, five type-dimension variants (children / values / errors without destructor, heterogeneous tuples, zero-sized values), "
+               "no poll of a combinator after its own final result; after a caught panic only ownership is judged. Generated search never establishes absence. Wake-ups from "
+               "other threads: scripted schedules fire wakers between polls, inside a child's poll and from joined helper threads; truly simultaneous wake-ups are explored by the "
+               "storm phase of the std configurations only (helper threads invoke the wakers while the task thread polls, mutates a group or drops the combinator; 10^5 cases per "
+               "configuration in the quick tier; interleavings chosen by the OS scheduler, not enumerated; C16 and C17 have no storm phase). A reproduced deadlock counts as a violation for C01.")
 
 NOTE_GROUP = ("Trusted base: the harness (scripted members, wake-only executor, reference model of the live members, trace oracles) and proptest's RNG "
-              "seeded from VERIF_SEED. Bounds: histories <= 40 operations (quick) / 120 (thorough) plus bursts of up to 70 inserts, initial capacity <= 100, reserve <= 130, "
-              "member scripts <= 6 steps, members may be one-level nested combinators. Generated search never establishes absence. Shared-oracle violations count only when the "
+              "seeded from VERIF_SEED. Bounds: histories <= 40 operations (quick) / 120 (thorough) plus bursts of up to 70 (rarely 1100) inserts, initial capacity <= 128, reserve <= 130, "
+              "groups collected from up to 128 members, extend / from_iter from iterators with exact, absent and under-reporting size hints and from an iterator that wakes parked members, "
+              "member scripts <= 6 steps, members may be nested combinators. A storm phase (std configurations) runs 10^5 histories with the wakers invoked by helper threads, concurrently "
+              "with the operations that follow; a reproduced deadlock of a group operation counts as a violation. Generated search never establishes absence. Shared-oracle violations count only when the "
               "group itself is to blame (DESIGN.md section 4, Attribution).")
 NOTE_CO = ("Trusted base: the harness (scripted source, one scripted future per closure invocation, wake-only executor, trace oracles) and proptest's RNG seeded from "
-           "VERIF_SEED. Bounds: source length <= 12, adapter stacks of depth <= 3, closure-future scripts <= 4 steps, schedules <= 30 actions, std and alloc-only. "
+           "VERIF_SEED. Bounds: source length <= 12 (now and then 33 / 70 / 300 / 1100, limits up to 1025; endless sources behind take(k)), adapter stacks of depth <= 3, closure-future scripts <= 4 steps, "
+           "schedules <= 30 actions, size hints none / exact / inexact / with a huge upper bound, a mass-completion template (>= 32 closure futures completing in one progress call), std and alloc-only; no storm phase. "
            "An error counts as observed by the consumer at the moment the failing future answers (futures only answer when the consumer polls them). "
            "Generated search never establishes absence.")
 NOTE_AUTOTRAITS = ("Trusted base: rustc's trait solver and the generator of obligation programs. Each accepted obligation has type parameters as leaves, so it holds for every "
@@ -72,7 +77,7 @@ CHECKS["C14"] = ("co", "§5 C14",
     "as C13 for try_for_each and collect::<Result<Vec<_>,_>> with every Ok/Err assignment, so that the first error surfaces in send's back-pressure loop, in progress, or only in the final flush; oracle: Ok only if every expected item was processed and every closure future answered Ok (collect: and the Ok values are exactly theirs), Err carries an error token some closure future actually returned, once an error has come out of a closure future no further source item is taken, no closure is invoked and no in-flight future completes, and after the drop nothing is alive; std and alloc-only",
     "property-based testing: generated Ok/Err assignments and schedules vs. error-fidelity and cancellation invariants on the observed trace")
 CHECKS["C15"] = ("co", "§5 C15",
-    "every adapter stack of depth <= 3 over {map, enumerate, take(0..=len+2), limit} (85 stack shapes) x {collect::<Vec<_>>, for_each, try_for_each} x {stream.co(), Vec::into_co_stream}, source length 0..=12, completion order decoupled from source order by the closure-future scripts; oracle: every map closure invoked exactly once per processed item and with the value the stack in front of it produces (enumerate = zero-based source position), processed items are exactly the first min(n, len) for the smallest take in the stack (none for n = 0), collect returns exactly the multiset of per-item outputs; 30 hand-written take(0) regression cases run first; std and alloc-only",
+    "every adapter stack of depth <= 3 over {map, enumerate, take(0..=len+2), limit} (85 stack shapes) x {collect::<Vec<_>>, for_each, try_for_each} x {stream.co(), Vec::into_co_stream}, source length 0..=12, completion order decoupled from source order by the closure-future scripts; oracle: every map closure invoked exactly once per processed item and with the value the stack in front of it produces (enumerate = zero-based source position), processed items are exactly the first min(n, len) for the smallest take in the stack (none for n = 0), collect returns exactly the multiset of per-item outputs; 36 hand-written regression cases run first (30 for take(0), 6 for collect under size hints with a huge upper bound / take of an endless source); std and alloc-only",
     "property-based testing: generated adapter stacks and completion orders vs. reference semantics (multiset, source index, exact prefix) read off the closure-invocation log")
 
 CHECKS["C18"] = ("autotraits", "§5 C18",
